@@ -87,7 +87,7 @@ func exec(e *lp.Exec) {
 		// after an error the parser must stay silent if fed again (engine closes; parser level check)
 		// (the engine's driver closes the parser on error: model that glue, then feed again)
 		if finalErr != 0 {
-			s.P.CloseAndClean(errors.New("parse error"))
+			s.P.CloseAndClean(errors.New("parse error")) // idempotent: already closed when the error was returned
 			s.R.Evs, s.R.Msgs = nil, nil
 			err := s.P.Parse([]byte("GET / HTTP/1.1\r\n\r\n"))
 			if err == nil || len(s.R.Evs) > 0 || len(s.R.Msgs) > 0 {
@@ -120,10 +120,15 @@ func exec(e *lp.Exec) {
 		case "D":
 			seg := lp.Unhex(f[1])
 			if dead {
-				// not fed to the segmented parser any more, but part of the byte stream the one-piece run gets
+				// the engine glue has closed the parser (CloseAndClean on the first error); the transport may still
+				// deliver data: every further Parse must return net.ErrClosed without any callback
 				segs = append(segs, seg)
-				e.P("> %s badurl= badproto=", line)
-				e.P("dead")
+				r := s.Feed(seg)
+				e.P("> %s badurl= badproto= okproto=", strings.Join(f[:2], " "))
+				if r.Evs != "" || r.Msgs != "" || r.Errc != 1 {
+					e.Oracle("c08-after-error", "Parse after the error and CloseAndClean: err=%d events [%s] msgs=%s", r.Errc, r.Evs, r.Msgs)
+				}
+				e.P("R err=%d [%s] msgs=%s", r.Errc, r.Evs, r.Msgs)
 				continue
 			}
 			segs = append(segs, seg)
@@ -180,6 +185,8 @@ func exec(e *lp.Exec) {
 				fmt.Fprintf(&key, "E%d", r.Errc)
 				e.Count("error_kinds", strconv.Itoa(r.Errc))
 				e.P("R err=%d [%s] msgs=%s", r.Errc, r.Evs, r.Msgs)
+				// what every reader of nbhttp/engine.go does on a parse error
+				s.P.CloseAndClean(r.Err)
 				continue
 			}
 			cl := s.P.VerifCacheLen()
@@ -193,7 +200,7 @@ func exec(e *lp.Exec) {
 				}
 			}
 			e.Count("parse_calls", "ok")
-			e.P("R ok cache=%d st=%d [%s] msgs=%s", cl, s.P.VerifState(), r.Evs, r.Msgs)
+			e.P("R ok cache=%d:%x st=%d held=%d [%s] msgs=%s", cl, lp.Fnv(s.P.VerifCache()), s.P.VerifState(), s.R.Held, r.Evs, r.Msgs)
 		default:
 			e.P("> %s", line)
 			e.P("bad-op")
@@ -205,6 +212,7 @@ func exec(e *lp.Exec) {
 // lineEnds checks the line terminators of a message the parser accepted as complete: the header section ends with
 // CR LF CR LF, no header line contains a bare CR or LF, and a message without a Content-Length body ends in CR LF CR LF.
 var blankLine = regexp.MustCompile("\r\n *\r\n")
+var chunkLine = regexp.MustCompile("^[0-9a-fA-F]+[ \t]*(;.*)?$")
 var chunkedEnd = regexp.MustCompile("\r\n[^\r]*\r\n$")
 
 func lineEnds(msg []byte, seen hx.Seen) string {
@@ -216,17 +224,54 @@ func lineEnds(msg []byte, seen hx.Seen) string {
 	}
 	he, hl := loc[0], loc[1]-loc[0]
 	lines := strings.Split(ms[:he], "\r\n")
-	for _, l := range lines[1:] {
+	for _, l := range lines {
 		if strings.ContainsAny(l, "\r\n") {
-			return "bare CR or LF inside a header line"
+			return "bare CR or LF inside a start line or header line"
 		}
 	}
 	chunked := len(seen.Header["Transfer-Encoding"]) > 0
 	switch {
 	case chunked:
-		// the final CR LF follows a CR LF; nbhttp skips non-token bytes where a trailer line may start
-		if !chunkedEnd.MatchString(ms) {
+		// walk the chunked body: size lines and trailer lines end in CR LF and contain no bare CR or LF; the
+		// chunk-size line is HEXDIG+ [BWS] [";" extension]
+		rest := ms[he+hl:]
+		for {
+			i := strings.Index(rest, "\r\n")
+			if i < 0 {
+				return "chunk-size line without CR LF"
+			}
+			line := rest[:i]
+			if strings.ContainsAny(line, "\r\n") {
+				return "bare CR or LF inside a chunk-size line"
+			}
+			if !chunkLine.MatchString(line) {
+				return fmt.Sprintf("chunk-size line %q is not HEXDIG+ [BWS] [\";\" extension]", trunc(line, 40))
+			}
+			j := 0
+			for j < len(line) && strings.IndexByte("0123456789abcdefABCDEF", line[j]) >= 0 {
+				j++
+			}
+			n, err := strconv.ParseInt(line[:j], 16, 63)
+			if err != nil {
+				return "chunk size does not parse"
+			}
+			rest = rest[i+2:]
+			if n == 0 {
+				break
+			}
+			if int64(len(rest)) < n+2 || rest[n:n+2] != "\r\n" {
+				return "chunk data not followed by CR LF"
+			}
+			rest = rest[n+2:]
+		}
+		// trailer section
+		if !chunkedEnd.MatchString("\r\n" + rest) {
 			return "chunked message does not end with CR LF CR LF"
+		}
+		for _, l := range strings.Split(strings.TrimSuffix(rest, "\r\n"), "\r\n") {
+			if strings.ContainsAny(l, "\r\n") && strings.Trim(l, " \t\n") != "" {
+				return "bare CR or LF inside a trailer line"
+			}
 		}
 	case seen.CL <= 0:
 		if len(ms) != he+hl {
